@@ -167,9 +167,23 @@ def walk(chk, repo):
            and ack not in cfg.reachable(it), ack.stmt,
            "the write is before the loop and not repeated")
     # the definition of `state` that reaches the walk on the error path
-    entry_preds = [p for p, lab in it.pred if lab not in ("loop", "continue")
-                   and (p is ack or p in cfg.reachable(
-                       ack, avoid=lambda n: n is it))]
+    # (taken where the error branch ends, so that statements between the
+    # branch and the loop do not blur the two paths)
+    ifn = None
+    for par in parents(ack.stmt):
+        if isinstance(par, ast.If) and any(ack.stmt is x or any(
+                ack.stmt is y for y in ast.walk(x)) for x in par.body):
+            ifn = par
+            break
+    if ifn is not None:
+        ends = [n for n in cfg.nodes if n.stmt is ifn.body[-1]
+                and n.kind != "with_exit"]
+        entry_preds = ends[-1:] if ends else []
+    else:
+        entry_preds = [p for p, lab in it.pred
+                       if lab not in ("loop", "continue")
+                       and (p is ack or p in cfg.reachable(
+                           ack, avoid=lambda n: n is it))]
     from_ack = [d for p in entry_preds
                 for d in rd.reaching_after(p, "state")]
     okc = bool(from_ack) and all(
